@@ -94,7 +94,8 @@ def fmt_tokens(F, im):
                 fp = _self_field(cb, cb.term_of_operand(t["args"][0]))
                 if fp is not None:
                     toks.append((bb, fp))
-        toks.sort(key=lambda x: sum(1 for o in toks if o is not x and cb.dominates(o[0], x[0])))
+        rpo = cb.rpo()
+        toks.sort(key=lambda x: rpo.get(x[0], 1 << 30))
         out += [f for _, f in toks]
     return out
 
